@@ -42,7 +42,24 @@ type obs struct {
 }
 
 // observe runs the decoder on a private copy of b under recover and measures the bytes allocated meanwhile.
+// runtime.MemStats.TotalAlloc counts the whole process: an allocation by any other goroutine (logger, timers, a
+// finishing stratum handler) that falls between the two readings is added to the decoder's. The decoders are
+// deterministic, such noise can only add, so the measurement is repeated and the minimum is kept.
 func observe(c *codec, b []byte) (o obs) {
+	o = observeOnce(c, b)
+	for i := 0; i < 2; i++ {
+		o2 := observeOnce(c, b)
+		if o2.class != o.class {
+			panic(fmt.Sprintf("decoder %s is not deterministic on %x", c.name, b))
+		}
+		if o2.alloc < o.alloc {
+			o.alloc = o2.alloc
+		}
+	}
+	return
+}
+
+func observeOnce(c *codec, b []byte) (o obs) {
 	in := append([]byte{}, b...)
 	var m1, m2 runtime.MemStats
 	runtime.ReadMemStats(&m1)
